@@ -107,7 +107,17 @@ theorem cmp_of_spec (x y c : Int) (h1 : x < y → c = -1) (h2 : x = y → c = 0)
     · rename_i h; exact h2 h
     · exact h3 (by omega)
 
-/-- `Add / Sub / Inc / Dec` (both types): the result mod 2^128 -/
+theorem cmp_of_spec_nat (x y : Nat) (c : Int) (h1 : x < y → c = -1) (h2 : x = y → c = 0) (h3 : y < x → c = 1) :
+    c = if x < y then -1 else if x = y then 0 else 1 := by
+  split
+  · rename_i h; exact h1 h
+  · split
+    · rename_i h; exact h2 h
+    · exact h3 (by omega)
+
+/-- `Add / Sub / Inc / Dec` (both types): the result mod 2^128.  (No lemma of this kind for `Int128.Add64 / Sub64`:
+    with the sign extension of the `int64` operand the kernel needs minutes to check the `omega` certificate; for those
+    two `gen_tie` remains the only script.) -/
 theorem add_of_spec (a b r : U128) (h : r.toNat = (a.toNat + b.toNat) % 2^128) :
     r = a.add b := U128.toNat_inj (by rw [h, U128.add_toNat])
 theorem sub_of_spec (a b r : U128)
@@ -131,28 +141,6 @@ theorem isub_of_spec (a b r : I128)
     (h : r.toU.toNat = (a.toU.toNat + 2^128 - b.toU.toNat) %
       2^128) : r = a.sub b :=
   I128_ext (by rw [h, I128.sub_toU, U128.sub_toNat])
-/-- `Int128.Add64 / Sub64`: the sign-extended operand as a 128-bit pattern is `int64Val n mod 2^128` -/
-theorem iaddW_of_spec (a : I128) (n : W) (r : I128)
-    (h : (r.toU.toNat : Int) = (a.toU.toNat + I128.int64Val n) % 2^128) :
-    r = a.addW n := by
-  apply I128.toInt_inj
-  have h1 := I128.toNat_as_int r; have h2 := I128.toNat_as_int a
-  have hr := I128.toInt_range r; have ha := I128.toInt_range a
-  have hs := I128.addW_toInt a n
-  have hq := I128.toInt_range (a.addW n)
-  unfold I128.wrap128 at hs
-  omega
-theorem isubW_of_spec (a : I128) (n : W) (r : I128)
-    (h : (r.toU.toNat : Int) = (a.toU.toNat - I128.int64Val n) % 2^128) :
-    r = a.subW n := by
-  apply I128.toInt_inj
-  have h1 := I128.toNat_as_int r; have h2 := I128.toNat_as_int a
-  have hr := I128.toInt_range r; have ha := I128.toInt_range a
-  have hs := I128.subW_toInt a n
-  have hq := I128.toInt_range (a.subW n)
-  unfold I128.wrap128 at hs
-  omega
-
 /-! ## `Mul64`: a second normal form of the model -/
 
 /-- the 32-bit schoolbook code of `Mul64` computes `bits.Mul64(u.lo, n)` plus `u.hi·n` in the upper word -/
@@ -218,3 +206,34 @@ macro_rules
         | (simp only [true_iff, iff_true, false_iff, iff_false, not_true_eq_false, not_false_eq_true, Nat.not_lt,
              Nat.not_le, Int.not_lt, Int.not_le, eq_self_iff_true, Bool.true_eq_false, Bool.false_eq_true,
              iff_self] at * <;> omega))
+
+/-! ## how `Props/C01Gen.lean` can use this file (scripts checked against the definitions regenerated from the reference
+    tree AND from `seeded/rewrite-ind5-c01`, ~25 s for all of them; on the behaviour-changing trees `ind3-c01-b`,
+    `own-c01-11/16/22` exactly the theorems of the changed functions fail, the whole file in ~30 s)
+
+    structure-valued functions — `apply` the characterisation, prove the value:
+        theorem Int128_Neg_eq : Gen.Int128_Neg = I128.neg := by
+          funext i; first | gen_tie [I128.neg] [I128.minI128, U128.signBit]
+                          | (apply GenTieSpec.neg_of_spec; gen_spec)
+        Int128_Abs_eq          … | (apply GenTieSpec.abs_of_spec <;> intro h <;> gen_spec)
+        Int128_AbsUint128_eq   … | (apply GenTieSpec.absUint128_of_spec <;> intro h <;> gen_spec)
+        Uint128_Add_eq / Sub / Add64 / Sub64 / Inc / Dec
+                               … | (apply GenTieSpec.add_of_spec; gen_spec)          (sub_of_spec, addW_of_spec, …)
+        Int128_Add_eq / Sub    … | (apply GenTieSpec.iadd_of_spec; gen_spec)
+        Int128_Inc_eq          … | (apply GenTieSpec.I128_ext; rw [I128.inc_toU, U128.inc_toNat]; gen_spec)
+        Int128From64_eq        … | (apply I128.toInt_inj; rw [I128.from64_toInt]; gen_spec)
+        Uint128_Mul64_eq       funext u n; first | gen_tie [U128.mulW] [U128.mask32] | gen_tie [GenTieSpec.mulW_eq_mul64]
+    `Bool`-valued functions — rewrite the model side with its specification from `Props/C01.lean`:
+        Int128_LessThan64_eq   funext i n; first | gen_tie […] […] | (rw [C01.ilt64_spec]; gen_spec)
+        (igt64_spec, ige64_spec, ile64_spec, ieq64_spec, ilt_spec, ige_spec, …, lessThan_spec, equal_spec, isZero_spec,
+         iisZero_spec, greaterThanOrEqual64_spec, …)
+    three-way results (`int` read by `toInt`) — one goal per case:
+        Int128_Cmp64_eq        first | gen_tie […] […]
+                                     | (rw [C01.icmp64_spec]; apply GenTieSpec.cmp_of_spec <;> intro h <;> gen_spec)
+        Int128_Cmp_eq (icmp_spec), Int128_Sign_eq (sign_spec, cmp_of_spec with y = 0),
+        Uint128_Cmp_eq / Cmp64 (cmp_spec / cmp64_spec with cmp_of_spec_nat)
+      the two signed `Cmp`s through a deduplicated `LessThan` split into ~100 leaves: they need
+      `set_option maxHeartbeats 1600000 in` (≈ 10 s).
+    Not covered: `Int128.Add64 / Sub64` (see above), the bit-level functions (`And … Xor64`, shifts, `Bit`, `SetBit`,
+    `BitLen` …: their values are not linear in the words; `gen_tie` compares them structurally), `Mul` (only the
+    normal forms above). -/
